@@ -92,7 +92,7 @@ Lemma new_conf_spec mem capacity a :
   exists st r a', dq_new_conf mem capacity a = Ok (st, r, a') /\
     match r with
     | Some d => st = CC_OK /\ dq_wf d /\ repr d [] /\ owns d a' /\ dq_mem d = mem /\ dq_cap d = upper_pow_two capacity /\
-                dq_size d = 0 /\
+                dq_size d = 0 /\ dq_hdr d = next_id a /\ dq_buf d = next_id a + 1 /\
                 live a' = {| b_id := dq_buf d; b_tag := mem; b_bytes := wmul (upper_pow_two capacity) 8 |} ::
                           {| b_id := dq_hdr d; b_tag := mem; b_bytes := 1 * SIZEOF_DEQUE |} :: live a
     | None => st = CC_ERR_ALLOC /\ live a' = live a /\ ledger_ok a' /\ 0 < next_id a'
@@ -144,7 +144,7 @@ Lemma swap_buffer d d' a a1 nb bytes :
   dq_hdr d' = dq_hdr d -> dq_mem d' = dq_mem d -> dq_buf d' = nb ->
   exists a2, release (dq_mem d) (dq_buf d) a1 = Ok a2 /\ owns d' a2 /\
              live a2 = {| b_id := nb; b_tag := dq_mem d; b_bytes := bytes |} :: without (dq_buf d) (live a) /\
-             plan a2 = tl (plan a) /\ nreq a2 = nreq a + 1 /\ limit a2 = limit a.
+             plan a2 = tl (plan a) /\ nreq a2 = nreq a + 1 /\ limit a2 = limit a /\ nb = next_id a.
 Proof.
   intros Ho Ea Hh Hm Hb.
   destruct (alloc_owns _ _ _ _ _ d Ho Ea) as (Hid & Hlive & Hok1 & Hpos1 & Hn1 & Hn2 & Hpl & Hrq & Hlim & Hnx1).
@@ -164,26 +164,26 @@ Qed.
 Lemma trim_refines d l a : dq_wf d -> repr d l -> owns d a ->
   exists st d' a', dq_trim d a = Ok (st, d', a') /\
     ((st = CC_OK /\ dq_wf d' /\ repr d' l /\ owns d' a' /\ same_ids d d' /\ dq_size d' = dq_size d /\
-      dq_cap d' = (if dq_cap d =? dq_size d then dq_cap d else upper_pow_two (dq_size d))) \/
+      dq_cap d' = (if dq_cap d =? dq_size d then dq_cap d else upper_pow_two (dq_size d)) /\ led_step d a d' a') \/
      (st = CC_ERR_ALLOC /\ d' = d /\ alloc_failed d a a')).
 Proof.
   intros Hwf Hr Ho. pose proof (wf_cap d Hwf) as Hc. pose proof (wf_size d Hwf) as Hsz.
   unfold dq_trim, g_deque_trim_full, g_deque_trim_same.
   destruct (dq_cap d =? dq_size d) eqn:Efull.
-  { do 3 eexists. split; [reflexivity|]. left. unfold same_ids. splits; auto. }
+  { do 3 eexists. split; [reflexivity|]. left. unfold same_ids. splits; auto. left. auto. }
   destruct (upper_pow_two_pow2 (dq_size d)) as [Hp Hge]. rewrite MAX_POW_TWO_val in Hge. specialize (Hge ltac:(lia)).
   pose proof (pow2_bounds _ Hp) as Hb.
   set (ns := upper_pow_two (dq_size d)) in *.
   destruct (ns =? dq_cap d) eqn:Esame.
-  { do 3 eexists. split; [reflexivity|]. left. unfold same_ids. splits; auto. lia. }
+  { do 3 eexists. split; [reflexivity|]. left. unfold same_ids. splits; auto; [lia|left; auto]. }
   destruct (alloc (dq_mem d) (wmul 8 ns) a) as [[nb|] a1] eqn:Ea.
   - destruct (copy_buffer_spec d l (repeatN None ns) Hwf Hr) as (buff & Hcb & Hlb & Hgb); [rewrite lenN_repeatN; lia|].
     rewrite Hcb. cbn [bind]. rewrite lenN_repeatN in Hlb.
     set (d' := {| dq_size := dq_size d; dq_cap := ns; dq_first := 0; dq_last := N.land (dq_size d) (wsub ns 1);
                   dq_slots := buff; dq_hdr := dq_hdr d; dq_buf := nb; dq_mem := dq_mem d |}).
-    destruct (swap_buffer d d' a a1 nb _ Ho Ea eq_refl eq_refl eq_refl) as (a2 & Hrel & Ho' & _).
+    destruct (swap_buffer d d' a a1 nb _ Ho Ea eq_refl eq_refl eq_refl) as (a2 & Hrel & Ho' & Hlv2 & _ & _ & _ & Hnb).
     rewrite Hrel. cbn [bind]. exists CC_OK, d', a2. split; [reflexivity|]. left.
-    destruct Hr as [Hl Hr]. unfold same_ids. splits; auto.
+    destruct Hr as [Hl Hr]. unfold same_ids. splits; auto; [| |right; eexists; split; [exact Hlv2|exact Hnb]].
     + constructor; cbn [d' dq_cap dq_size dq_first dq_last dq_slots]; try lia; try assumption.
       rewrite land_mask by assumption. apply (mod_idx 0 (dq_size d) ns); lia.
     + split; cbn [d' dq_cap dq_size dq_first dq_slots]; [assumption|]. intros j Hj.
